@@ -239,7 +239,9 @@ def enumerate_flips(ctx, out, stats, allassign, mi, motif, prefix, refed):
                 assignments += [asg({i, j}), asg({j})]
             else:
                 assignments += [allassign[0]]       # everything cached, n switched OFF
-        for e in refed:
+        # quick tier: every edit of an existing reference after the extended motifs, a seeded sample of 3 after the others
+        es = refed if ctx.tier == "thorough" or mi >= len(S.MOTIFS) else rng.sample(refed, min(len(refed), 3))
+        for e in es:
             variants = [[], [["evalall"]]]
             if ctx.tier != "thorough":
                 variants = [rng.choice(variants)]
